@@ -102,12 +102,37 @@ Theorem C17_renderings : forall sp postponed chain,
 Proof. exact chain_types_ok. Qed.
 Print Assumptions C17_renderings.
 
+(* ---------- the type predicates and the nested-group decision (utils.py / DataclassWrapper.__init__, regenerated) ---------- *)
+(* whatever the spelling, the resolved type object answers is_union / is_optional / is_list / is_tuple / is_dict as the
+   type the annotation denotes does *)
+Theorem C17_predicates : forall sp postponed initvar c, wf_cty c = true ->
+  exists sp', resolve_gen postponed initvar (render sp c) = Ok (rt sp' c)
+  /\ is_union_gen (rt sp' c) = is_cunion c /\ is_optional_gen (rt sp' c) = is_coptional c
+  /\ is_list_gen (rt sp' c) = is_clist c /\ is_tuple_gen (rt sp' c) = is_ctuple c /\ is_dict_gen (rt sp' c) = is_cdict c.
+Proof.
+  intros sp postponed initvar c Hw. destruct (resolve_render_rt sp postponed initvar c Hw) as [sp' H]. exists sp'.
+  split; [exact H|]. split; [apply is_union_rt|]. split; [now apply is_optional_rt|].
+  split; [now apply is_list_rt|]. split; [now apply is_tuple_rt|now apply is_dict_rt].
+Qed.
+Print Assumptions C17_predicates.
+
+(* whatever the spelling, a member becomes an option / a nested group / an optional nested group as its meaning says *)
+Theorem C17_wrapper_kind : forall dcs sp postponed initvar c dn,
+  str_in "NoneType" dcs = false -> wf_cty c = true ->
+  exists r, resolve_gen postponed initvar (render sp c) = Ok r
+  /\ wrapper_kind_gen dcs r dn = match spec_wkind dcs c dn with Some k => Ok k | None => Err (Raise "NotImplementedError") end.
+Proof.
+  intros dcs sp postponed initvar c dn Hn Hw. destruct (resolve_render_rt sp postponed initvar c Hw) as [sp' H].
+  exists (rt sp' c). split; [exact H|]. now apply wrapper_kind_rt.
+Qed.
+Print Assumptions C17_wrapper_kind.
+
 (* ---------- non-vacuity ---------- *)
 Example C17_nonvacuous :
   let c := CUnion [CList (CUnion [CAtom "int"; CAtom "str"]); CTupleVar (CAtom "E"); CNone] in
   let t := TSub "dict" [TName "str"; TBar [TName "int"; TName "None"]] in
-  let chain := [[("a", mkf (CAtom "int") KField true true); ("b", mkf (CAtom "str") KField true true)];
-                [("iv", mkf c KInitVar true true); ("a", mkf c KField true true); ("h", mkf (CAtom "int") KField true false)]] in
+  let chain := [[("a", mkf (CAtom "int") KField true true false); ("b", mkf (CAtom "str") KField true true false)];
+                [("iv", mkf c KInitVar true true false); ("a", mkf c KField true true false); ("h", mkf (CAtom "int") KField true false false)]] in
   wf_cty c = true /\ has_variadic c = true
   /\ unchars (pr (render Sp604 c)) = "list[int | str] | tuple[E, ...] | None"%string
   /\ unchars (pr (render SpTyping c)) = "Optional[Union[List[Union[int, str]], Tuple[E, ...]]]"%string
@@ -115,6 +140,8 @@ Example C17_nonvacuous :
   /\ names_ok t = true /\ shape_ok t = true /\ rw_ok t = true /\ has_bar t = true
   /\ option_map unchars (match old_style_gen (pr t) with Ok s => Some s | Err _ => None end) = Some "dict[str, Union[int, None]]"%string
   /\ forallb decl_wf (chain_fields chain) = true
-  /\ field_types_gen Sp604 true (chain_fields chain) = Ok [("a", c); ("b", CAtom "str"); ("iv", c)].
+  /\ field_types_gen Sp604 true (chain_fields chain) = Ok [("a", c); ("b", CAtom "str"); ("iv", c)]
+  /\ wrapper_kind_gen ["In"] (rt Sp604 (CUnion [CAtom "In"; CNone])) true = Ok WOptChild
+  /\ wrapper_kind_gen ["In"] (rt SpTyping (CAtom "In")) false = Ok WChild.
 Proof. vm_compute. repeat split; reflexivity. Qed.
 Print Assumptions C17_nonvacuous.
